@@ -378,6 +378,28 @@ func runSub(build, tmp string, s plan.Sub, tier string, seed int64) *subResult {
 					mu.Unlock()
 					return
 				}
+				// A worker that was killed by the OS (SIGKILL, no output: typically the kernel's
+				// out-of-memory killer on an overloaded machine) is no verdict by itself: the
+				// case in progress is re-run alone in a fresh process; only if that dies as
+				// well it is the case's doing.
+				if ee, ok := err.(*exec.ExitError); ok && tail == "" {
+					if ws, ok := ee.Sys().(syscall.WaitStatus); ok && ws.Signaled() && ws.Signal() == syscall.SIGKILL {
+						if !diesAlone(bin, s, prog, out) {
+							res.overrun++
+							if len(bytes.TrimRight(prog, "\x00")) > 0 {
+								sf, _ := os.OpenFile(out+".skip", os.O_CREATE|os.O_APPEND|os.O_WRONLY, 0o644)
+								sf.Write(append(bytes.TrimRight(prog, "\x00"), '\n'))
+								sf.Close()
+							}
+							mu.Unlock()
+							attempt++
+							if attempt >= 3 {
+								return
+							}
+							continue
+						}
+					}
+				}
 				if len(bytes.TrimRight(prog, "\x00")) > 0 {
 					sf, _ := os.OpenFile(out+".skip", os.O_CREATE|os.O_APPEND|os.O_WRONLY, 0o644)
 					sf.Write(append(bytes.TrimRight(prog, "\x00"), '\n'))
@@ -410,6 +432,45 @@ func raceSite(report string) string {
 		}
 	}
 	return "?"
+}
+
+// diesAlone re-runs the case that was in progress when a worker was killed, alone, in a
+// fresh process. It reports whether that process dies too.
+func diesAlone(bin string, s plan.Sub, prog []byte, out string) bool {
+	prog = bytes.TrimRight(prog, "\x00")
+	if len(prog) == 0 || !json.Valid(prog) {
+		return false
+	}
+	sub := s.Name
+	if i := strings.Index(sub, "/"); i >= 0 {
+		// replayers are registered per sub-check under "enum:<sub>" or plain "enum"
+		sub = s.Name[:i]
+	}
+	f := map[string]any{"property": s.Name[:3], "kind": "enum", "sub": sub, "symptom": "process-death", "case": json.RawMessage(prog)}
+	b, _ := json.Marshal(f)
+	p := out + ".alone.json"
+	os.WriteFile(p, b, 0o644)
+	mode := s.Mode
+	if mode == "race" {
+		mode = "free"
+	}
+	cmd := exec.Command(bin, "-findings", filepath.Join(verif, "findings", "known_findings.json"), "-replay", p, "-mode", mode)
+	cmd.Stdout, cmd.Stderr = io.Discard, io.Discard
+	done := make(chan error, 1)
+	go func() { done <- cmd.Run() }()
+	select {
+	case err := <-done:
+		if ee, ok := err.(*exec.ExitError); ok {
+			if ws, ok := ee.Sys().(syscall.WaitStatus); ok && ws.Signaled() {
+				return true
+			}
+			return ee.ExitCode() > 2
+		}
+		return false
+	case <-time.After(10 * time.Minute):
+		cmd.Process.Kill()
+		return false
+	}
 }
 
 func jsonOrNull(b []byte) []byte {
